@@ -325,10 +325,11 @@ def main():
             src = rnd_cube(rng, (nt, ns))
             idx += 1
             sgy = os.path.join(d, f't{idx}.sgy'); p = os.path.join(d, f't{idx}.sgz')
-            mk_segy_2d(sgy, src)
+            # every other line carries distinct OFFSET values per trace (segyio then counts n offsets on 1 inline x 1 crossline)
+            mk_segy_2d(sgy, src, hdr=(lambda t: {segyio.TraceField.offset: 50 + 25 * t}) if k % 2 == 1 else None)
             bs = rng.choice([(1, 16, -1), (1, 4, -1), (1, 64, 64)])
             bpv = 8 if bs != (1, 64, 64) else 8
-            inp = {'writer': 'segy-2d', 'shape': [nt, ns], 'blockshape': list(bs), 'bits_per_voxel': bpv}
+            inp = {'writer': 'segy-2d' + (', distinct offsets' if k % 2 == 1 else ''), 'shape': [nt, ns], 'blockshape': list(bs), 'bits_per_voxel': bpv}
             try:
                 write_segy_sgz(sgy, p, bpv=bpv, blockshape=bs)
                 check_file(p, inp, src, (nt, ns))
